@@ -12,7 +12,7 @@ import fs
 import pkg_resources
 import six
 from fs.wrap import read_only
-from fs.path import splitext
+from fs.path import basename, splitext
 from property_cached import cached_property
 
 from .._impl import bz2, json
@@ -169,7 +169,8 @@ class FilesystemRegistry(AbstractRegistry):
     def __getitem__(self, item):
         files = ("{}.{}".format(item, extension) for extension in self._extensions)
         for name in files:
-            if self.fs.isfile(name):
+            # only direct children are listed by `__iter__` (no recursion)
+            if basename(name) == name and self.fs.isfile(name):
                 with self.fs.open(name) as handle:
                     record = CircularRecord(Bio.SeqIO.read(handle, "genbank"))
                     record.id, _ = splitext(name)
